@@ -12,13 +12,13 @@ func init() {
 	register(&Spec{
 		ID:          "C09",
 		Loads:       []LoadSpec{{Patterns: []string{"./htlcswitch", "./graph/db/models"}}},
-		Explanation: "Decides that the accepting return of the forwarding check is dominated by every advertised-policy comparison with the documented operands (incoming >= outgoing amount; actual fee >= inbound fee on (out + outbound fee) plus outbound fee; expiry gap >= time-lock delta and <= maximum; outgoing expiry beyond height + reject delta and within the maximum; amount within [min_htlc, max_htlc] and bandwidth), that each BOLT-4 failure is constructed only below the predicate it names, that the fee formulas have the documented shape, that every unsigned subtraction in these functions is below the matching >= guard or on signed values, and that the switch hands an HTLC only to links whose check returned nil.",
+		Explanation: "Decides that the accepting return of the forwarding check is dominated by every advertised-policy comparison with the documented operands (incoming >= outgoing amount; actual fee less the outbound fee >= inbound fee on (out + outbound fee), the overflow-free form of the fee test; expiry gap >= time-lock delta and <= maximum; outgoing expiry beyond height + reject delta and within the maximum, both sums computed in 64 bits; amount within [min_htlc, max_htlc] and bandwidth), that each BOLT-4 failure is constructed only below the predicate it names, that the two fee formulas, interpreted on boundary values, agree with unbounded-integer arithmetic wherever the fee is payable and saturate without wrapping beyond, that every unsigned subtraction in these functions is below the matching >= guard or on signed values, that no sum of the check is computed in 32 bits, that the link's policy is read under its lock and one forwarding decision uses one snapshot of it, that a policy update reaches links of both indexes, that the amount the policy is checked on is the amount of the add that is sent, and that the switch hands an HTLC only to links whose check returned nil.",
 		NotDecided: []string{
-			"agreement with unbounded-integer arithmetic where uint32 sums (height + delta, out + delta) or the uint64 product amt*rate can wrap",
-			"rounding of the proportional fee", "that the failure named is the most specific one",
+			"agreement with unbounded-integer arithmetic outside the sampled boundary values of the fee formulas, and for fees beyond the total supply (a saturated outbound fee combined with an inbound discount)",
+			"that the failure named is the most specific one",
 		},
 		Assumptions: commonAssumptions,
-		Engines:     "GUARD (origin terms), ROLE (formula shape), BOUND (unsigned subtraction), TABLE",
+		Engines:     "GUARD (origin terms), ROLE (formulas interpreted on boundary values), BOUND (unsigned subtraction, 64-bit sums), LOCK, MIRROR, WHO, TABLE",
 		TagMatrix:   [][]string{{"GOARCH=386"}},
 		Run:         runC09,
 	})
@@ -27,15 +27,19 @@ func init() {
 func runC09(r *an.Run) {
 	p := r.Prog
 	const (
-		outFee  = `htlcswitch\.ExpectedFee\(\$recv\.cfg\.FwrdingPolicy, \$p2\)`
-		inFee   = `\$p5\.CalcFee\(\(\$p2 \+ ` + outFee + `\)\)`
-		expFee  = `^\(` + inFee + ` \+ int64\(` + outFee + `\)\)$`
-		actFee  = `^\(int64\(\$p1\) - int64\(\$p2\)\)$`
-		inDelta = `^\$v:uint32$` // the conditionally assigned gap variable
+		outFee = `htlcswitch\.ExpectedFee\(\$recv\.cfg\.FwrdingPolicy, \$p2\)`
+		inFee  = `^\$p5\.CalcFee\(\(\$p2 \+ ` + outFee + `\)\)$`
+		// the fee that is left for the inbound side: (in - out) - outbound fee,
+		// on int64 conversions. The sum inFee + int64(outFee) is NOT accepted:
+		// the outbound fee saturates at MaxInt64 and the sum overflows.
+		netFee = `^\(\(int64\(\$p1\) - int64\(\$p2\)\) - int64\(` + outFee + `\)\)$`
 	)
+	// the two outgoing-expiry bounds of canSendHtlc, each a sum computed in 64 bits
+	tooSoonBound := c09f5WideSum(an.Param(4), an.FieldPath(nil, "OutgoingCltvRejectDelta"))
+	tooFarBound := c09f5WideSum(an.FieldPath(nil, "MaxOutgoingCltvExpiry"), an.Param(4))
 
 	r.Obl("forward-accept-guards", "GUARD",
-		"CheckHtlcForward returns nil only below: incoming >= outgoing amount; (int64(in)-int64(out)) >= inboundFee.CalcFee(out+ExpectedFee(policy,out)) + ExpectedFee(policy,out); canSendHtlc == nil; incomingTimeout >= outgoingTimeout; gap >= policy.TimeLockDelta; gap <= MaxOutgoingCltvExpiry. canSendHtlc returns nil only below validateHtlcAmount == nil; timeout > heightNow+OutgoingCltvRejectDelta; timeout <= MaxOutgoingCltvExpiry+heightNow; amt <= bandwidth. validateHtlcAmount returns nil (for non-custom HTLCs) only below amt >= MinHTLCOut and !(MaxHTLC != 0 && amt > MaxHTLC)",
+		"CheckHtlcForward returns nil only below: incoming >= outgoing amount; (int64(in)-int64(out)) - int64(ExpectedFee(policy,out)) >= inboundFee.CalcFee(out+ExpectedFee(policy,out)) (the difference form: the sum inFee+int64(outFee) can overflow once the outbound fee saturates and is not accepted); canSendHtlc == nil; incomingTimeout >= outgoingTimeout; gap >= policy.TimeLockDelta; gap <= MaxOutgoingCltvExpiry. canSendHtlc returns nil only below validateHtlcAmount == nil; timeout > heightNow+OutgoingCltvRejectDelta; timeout <= MaxOutgoingCltvExpiry+heightNow, where each of the two sums is an addition of 64-bit type (operands widened before they are added); amt <= bandwidth. validateHtlcAmount returns nil (for non-custom HTLCs) only below amt >= MinHTLCOut and !(MaxHTLC != 0 && amt > MaxHTLC)",
 		"a forward accepted outside the advertised policy loses the node money or gets the HTLC stuck", 14,
 		func(o *an.Obl) {
 			f := p.Func(hs + "channelLink.CheckHtlcForward")
@@ -58,7 +62,7 @@ func runC09(r *an.Run) {
 			}
 			guardedAll(o, f, acc,
 				an.Cmp(an.Param(1), an.GE, an.Param(2), "incomingHtlcAmt >= amtToForward"),
-				an.Cmp(canonTerm(actFee), an.GE, canonTerm(expFee), "actualFee >= inboundFee(out+outFee) + outFee"),
+				an.Cmp(canonTerm(netFee), an.GE, canonTerm(inFee), "actualFee - outFee >= inboundFee(out+outFee)"),
 				an.Cmp(an.Param(3), an.GE, an.Param(4), "incomingTimeout >= outgoingTimeout"),
 				an.Cmp(gap, an.GE, an.FieldPath(nil, "TimeLockDelta"), "expiry gap >= policy.TimeLockDelta"),
 				an.Cmp(gap, an.LE, an.FieldPath(nil, "MaxOutgoingCltvExpiry"), "expiry gap <= MaxOutgoingCltvExpiry"),
@@ -74,8 +78,8 @@ func runC09(r *an.Run) {
 			g := p.Func(hs + "channelLink.canSendHtlc")
 			gacc := g.StrictSuccessReturnsOrNilPtr()
 			guardedAll(o, g, gacc,
-				an.Cmp(an.Param(3), an.GT, an.Bin(tokADD, an.Param(4), an.FieldPath(nil, "OutgoingCltvRejectDelta")), "timeout > heightNow + OutgoingCltvRejectDelta"),
-				an.Cmp(an.Param(3), an.LE, an.Bin(tokADD, an.FieldPath(nil, "MaxOutgoingCltvExpiry"), an.Param(4)), "timeout <= MaxOutgoingCltvExpiry + heightNow"),
+				an.Cmp(an.Param(3), an.GT, tooSoonBound, "timeout > heightNow + OutgoingCltvRejectDelta (64-bit sum)"),
+				an.Cmp(an.Param(3), an.LE, tooFarBound, "timeout <= MaxOutgoingCltvExpiry + heightNow (64-bit sum)"),
 				an.Cmp(an.Param(2), an.LE, an.LocalNamed("availableBandwidth"), "amt <= available bandwidth"),
 			)
 			mustPass(o, g, "validateHtlcAmount", g.Calls(an.CalleeIs(hs+"channelLink.validateHtlcAmount"), false), an.OkNil, gacc)
@@ -117,7 +121,7 @@ func runC09(r *an.Run) {
 		})
 
 	r.Obl("failure-names-violated-rule", "GUARD",
-		"each BOLT-4 failure constructor in the forwarding check is built only below its own predicate: fee_insufficient below (in < out or actual fee < expected fee); incorrect_cltv_expiry below (in expiry < out expiry or gap < delta); expiry_too_far below (gap > max or timeout > max + height); expiry_too_soon below timeout <= height + reject delta; amount_below_minimum below amt < min_htlc; temporary_channel_failure (max/bandwidth) below the corresponding amount test",
+		"each BOLT-4 failure constructor in the forwarding check is built only below its own predicate: fee_insufficient below (in < out or actual fee - outbound fee < inbound fee); incorrect_cltv_expiry below (in expiry < out expiry or gap < delta); expiry_too_far below (gap > max or timeout > max + height); expiry_too_soon below timeout <= height + reject delta (both sums of 64-bit type); amount_below_minimum below amt < min_htlc; temporary_channel_failure (max/bandwidth) below the corresponding amount test",
 		"the failure returned to the sender must name a rule that is actually violated, otherwise senders penalise the wrong channel or retry forever", 6,
 		func(o *an.Obl) {
 			type fc struct {
@@ -128,9 +132,9 @@ func runC09(r *an.Run) {
 			g := hs + "channelLink.canSendHtlc"
 			h := hs + "channelLink.validateHtlcAmount"
 			for _, c := range []fc{
-				{f, "lnwire.NewFeeInsufficient", an.AnyOf("in < out or actual fee < expected fee", an.Cmp(an.Param(1), an.LT, an.Param(2), ""), an.Cmp(canonTerm(actFee), an.LT, canonTerm(expFee), ""))},
+				{f, "lnwire.NewFeeInsufficient", an.AnyOf("in < out or actual fee - outbound fee < inbound fee", an.Cmp(an.Param(1), an.LT, an.Param(2), ""), an.Cmp(canonTerm(netFee), an.LT, canonTerm(inFee), ""))},
 				{f, "lnwire.NewIncorrectCltvExpiry", an.AnyOf("in expiry < out expiry or gap < delta", an.Cmp(an.Param(3), an.LT, an.Param(4), ""), an.Cmp(an.Any(), an.LT, an.FieldPath(nil, "TimeLockDelta"), ""))},
-				{g, "lnwire.NewExpiryTooSoon", an.Cmp(an.Param(3), an.LE, an.Bin(tokADD, an.Param(4), an.FieldPath(nil, "OutgoingCltvRejectDelta")), "timeout <= heightNow + reject delta")},
+				{g, "lnwire.NewExpiryTooSoon", an.Cmp(an.Param(3), an.LE, tooSoonBound, "timeout <= heightNow + reject delta")},
 				{h, "lnwire.NewAmountBelowMinimum", an.Cmp(an.Param(2), an.LT, an.FieldPath(an.Param(0), "MinHTLCOut"), "amt < min_htlc")},
 			} {
 				fn := p.Func(c.fn)
@@ -167,42 +171,18 @@ func runC09(r *an.Run) {
 				case f:
 					guarded(o, fn, site, an.Cmp(an.Any(), an.GT, an.FieldPath(nil, "MaxOutgoingCltvExpiry"), "gap > MaxOutgoingCltvExpiry"))
 				case g:
-					guarded(o, fn, site, an.Cmp(an.Param(3), an.GT, an.Bin(tokADD, an.FieldPath(nil, "MaxOutgoingCltvExpiry"), an.Param(4)), "timeout > MaxOutgoingCltvExpiry + heightNow"))
+					guarded(o, fn, site, an.Cmp(an.Param(3), an.GT, tooFarBound, "timeout > MaxOutgoingCltvExpiry + heightNow"))
 				}
 			}
 		})
 
 	r.Obl("fee-formulas", "ROLE",
-		"ExpectedFee returns policy.BaseFee + (amt * policy.FeeRate) / 1000000 (multiply before divide); InboundFee.CalcFee returns int64(base) + rate*int64(amt)/feeRateParts with the rate clamped to +-maxFeeRate; expectedFee adds the two separately rounded components",
-		"dividing before multiplying truncates sub-satoshi amounts and under-charges; a different parts-per-million constant changes every fee", 2,
+		"the bodies of ExpectedFee and InboundFee.CalcFee are interpreted (from the syntax tree, whatever their shape; a body the interpreter cannot run is reported) on every combination of boundary values of base fee, rate and amount (0, 1, around 10^6, around 2^32, around 2^63/10^7, 2^64/10 (where the high word of the 128-bit product equals the divisor), the total supply 2.1*10^18 msat, 2^63-1, 2^63, 2^64-1; inbound base and rate over the int32 range and around the cap of +-10^7) and compared with unbounded-integer arithmetic: ExpectedFee returns BaseFee + floor(amt*FeeRate/1000000) wherever that is at most the total supply and otherwise a value above the supply and at most math.MaxInt64 (it stays positive as an int64); CalcFee returns Base + rate*amt/1000000 with the rate capped at +-10000000 and the quotient rounded toward zero wherever the proportional part is at most the supply in size, and otherwise a value of the same sign beyond the supply; during the runs no +, -, * may wrap around its static type and math/bits.Div64 may not panic; models.feeRateParts is 1000000",
+		"dividing before multiplying truncates sub-satoshi amounts and under-charges; a different parts-per-million constant changes every fee; amt*FeeRate in uint64 wraps for a rate near the uint32 maximum (a sender picks the amount whose product wraps to almost nothing and is forwarded nearly free); rate*int64(amt) overflows int64 above 9.22 BTC and turns a positive inbound fee negative", 2890,
 		func(o *an.Obl) {
-			f := p.Func(hs + "ExpectedFee")
-			rets := f.Returns()
-			if len(rets) != 1 {
-				o.FailAt(f.ID+"#returns", f.Where(f.Body.Pos()), "expected a single return")
-				return
-			}
-			c := f.Canon(rets[0].Node.(*ast.ReturnStmt).Results[0])
-			o.Site("ExpectedFee = %s", c)
-			if c != "($p0.BaseFee + (($p1 * $p0.FeeRate) / 1000000))" {
-				o.FailAt(f.ID+"#formula", rets[0].Where(), "ExpectedFee computes %s, expected BaseFee + (amt*FeeRate)/1000000", c)
-			}
-			g := p.Func("graph/db/models.InboundFee.CalcFee")
-			ok := false
-			for _, v := range g.Graph().V {
-				if as, isAs := v.Node.(*ast.AssignStmt); isAs && as.Tok.String() == "+=" {
-					cc := g.Canon(as.Rhs[0])
-					o.Site("CalcFee: fee += %s", cc)
-					if strings.HasSuffix(cc, "* int64($p0)) / graph/db/models.feeRateParts)") {
-						ok = true
-					}
-				}
-			}
-			if !ok {
-				o.FailAt(g.ID+"#formula", g.Where(g.Body.Pos()), "InboundFee.CalcFee no longer computes rate*int64(amt)/feeRateParts")
-			}
+			c09f5FeeFormulas(o, p)
 			if v := constValue(p, "graph/db/models", "feeRateParts"); v != "1000000" {
-				o.FailAt(g.ID+"#feeRateParts", "", "feeRateParts = %s, expected 1000000", v)
+				o.FailAt("graph/db/models.InboundFee.CalcFee#feeRateParts", "", "feeRateParts = %s, expected 1000000", v)
 			}
 		})
 
